@@ -251,7 +251,38 @@ def r5_collection(chk: Check):
         chk.require(len(rec) == 1, chk.fkey(m, "values recursion"), "argument values are not passed to updatedependencies()", loc)
         # values of ALL arguments (no filter on ignored / generated)
         xv = tree.func("core.objects", "ConfigInformation.xpmvalues")
+        outputs_linked_to_producer(chk)
         chk.require("ignored" not in src(xv.node), chk.fkey(xv, "no ignored filter"), "xpmvalues() filters ignored arguments: Meta/Option parameters holding task outputs would not be waited for", chk.loc(xv.module, xv.node))
+
+
+def outputs_linked_to_producer(chk: Check):
+    """what a task returns to the experiment plan carries a link to the task: that link is what updatedependencies() follows"""
+    tree = chk.tree
+    mo = tree.func("core.objects", "ConfigInformation.mark_output")
+    gm = CFG(mo.node)
+    p = mo.node.args.args[1].arg
+    st = [n for n in gm.live if n.kind == "stmt" and isinstance(n.ast, ast.Assign) and any(src(t) == f"{p}.__xpm__.task" for t in n.ast.targets) and src(n.ast.value) == "self.pyobject"]
+    rets = [n for n in gm.live if n.kind == "stmt" and isinstance(n.ast, ast.Return)]
+    ok = bool(st) and gm.on_every_path(st) and rets and all(n.ast.value is not None and src(n.ast.value) == p for n in rets)
+    chk.require(ok, chk.fkey(mo, "links the output to its task"), "mark_output must store the producing task in the output configuration (`config.__xpm__.task = self.pyobject`) on every path and return it: "
+                "a task consuming that output would otherwise not wait for the producer", chk.loc(mo.module, mo.node))
+    sub = tree.func("core.objects", "ConfigInformation.submit")
+    g = CFG(sub.node)
+    rd = ReachingDefs(g)
+    loc = chk.loc(sub.module, sub.node)
+    stores = [n for n in g.live if n.kind == "stmt" and isinstance(n.ast, ast.Assign) and any(src(t) == "self.task" for t in n.ast.targets) and rd.canon(n.ast.value, n) == "self.pyobject"]
+    finals = [n for n in g.live if n.kind == "stmt" and isinstance(n.ast, ast.Return) and n.ast.value is not None and rd.canon(n.ast.value, n) in ("self._taskoutput", "self.pyobject")]
+    chk.require(bool(finals) and bool(stores) and all(g.on_every_path(stores, end=r) for r in finals), chk.fkey(sub, "task marks itself"),
+                "submit must record the task as its own producer (`self.task = self.pyobject`) on every path that returns the task output", loc)
+    outs = [n for n in g.live if n.kind == "stmt" and isinstance(n.ast, ast.Assign) and any(src(t) == "self._taskoutput" for t in n.ast.targets)]
+    ok = bool(outs)
+    for n in outs:
+        v = n.ast.value
+        if isinstance(v, ast.Call) and tail(v) == "task_outputs":
+            ok = ok and len(v.args) == 1 and src(v.args[0]) == "self.mark_output"
+        else:
+            ok = ok and rd.canon(v, n) == "self.pyobject"
+    chk.require(ok, chk.fkey(sub, "task outputs marked"), f"the task output is built by {[src(n.ast) for n in outs]}: it must be the task itself or task_outputs(self.mark_output)", loc)
 
 
 def r6_counter_arithmetic(chk: Check):
